@@ -42,7 +42,13 @@ pub fn policy_for(fam: Family, rng: &mut Rng) -> Policy {
             2 => Policy::PullLover,
             3 => Policy::Passer,
             4 => Policy::CaptureSeeker,
-            _ => Policy::Uniform,
+            _ => {
+                if rng.chance(1, 2) {
+                    Policy::Reverser
+                } else {
+                    Policy::Uniform
+                }
+            }
         },
     }
 }
@@ -82,6 +88,21 @@ pub fn play_family(fam: Family, games: u64, seed: u64, worker: usize, text_start
                 let pol = policy_for(fam, &mut rng);
                 play(&mut rec, pol, opts, &mut rng, mon, sink);
             }
+        }
+    }
+}
+
+/// W4c as a game family: barely mobile movers (immobilised, or with nothing but pushes), one turn each. Consecutive
+/// games on a thread put an only-pushes position right before an immobilised one and the other way round.
+pub fn play_barely_mobile(games: u64, seed: u64, worker: usize, mon: &mut dyn Monitor, sink: &mut Sink) {
+    let mut rng = Rng::new(seed, 0x4C00 + worker as u64);
+    let o1 = PlayOpts { max_turns: 1, max_actions: 5, ..PlayOpts::default() };
+    for k in 0..games {
+        if let Some((b, g, mv)) = gen::w4c(&mut rng) {
+            let start = if rng.chance(1, 20) { Start::Text { board: b, gold: g, moveno: mv } } else { Start::Inject { board: b, gold: g, moveno: mv } };
+            let mut rec = GameRecord::new("W4c-barely-mobile", seed, (worker as u64) << 32 | k, start);
+            sink.count("barely_mobile_positions_played");
+            play(&mut rec, Policy::Uniform, &o1, &mut rng, mon, sink);
         }
     }
 }
